@@ -13,6 +13,7 @@ FIXED = [
  ("C13", "bg/worker-dead", "fix: background worker survives", "worker task panics on a *_in_background request that cannot apply (or on an I/O error creating the next blob); no rotation/dumps afterwards"),
  ("C04", "write/err", "fix: restore_active_blob loads", "write after try_restore_active_blob of a blob whose index was dumped fails with 'Index is closed' (bytes appended anyway)"),
  ("C14", "cancel/close_active-drops-blob", "fix: close_active_blob syncs", "try_close_active_blob dropped (or failing) during fsync detaches the active blob: its records answer NotFound until restart"),
+ ("C03", "read/mismatch", "fix: index validation rejects", "index file of a closed blob truncated at almost any length is accepted at start-up: keys silently NotFound or every read errors"),
  ("C15", "blobs_count/mismatch", "fix: HierarchicalFilters::len", "blobs_count counts empty slots after restore (2 with one blob file)"),
  ("C15", "disk_used/mismatch", "fix: disk_used counts", "disk_used omits an index file that exists while its index is in memory"),
  ("C12", "sync/explicit-fsyncdata-noop", "fix: Storage::fsyncdata always", "explicit fsyncdata() issues no sync below the dirty-byte limit"),
